@@ -740,8 +740,12 @@ func runCheck(o *Options) (int, *Evidence) {
 	// an edit that adds or removes a call, loop or arithmetic operation renumbers the ones after
 	// it: an obligation also counts as "on the baseline" when it is there up to those ordinals
 	baselineNorm := map[string]bool{}
+	baselineFuncs := map[string]bool{}
 	for n := range baseline {
 		baselineNorm[normOb(n)] = true
+		if i := strings.Index(n, "#"); i > 0 {
+			baselineFuncs[n[:i]] = true
+		}
 	}
 
 	nOb, nDis := 0, 0
@@ -785,7 +789,14 @@ func runCheck(o *Options) (int, *Evidence) {
 			undec = append(undec, "PREREQUISITE-FAILED "+n+" ("+ob.Status+")")
 			continue
 		}
-		if ob.Status == "failed-unknown" && !baseline[n] && !baselineNorm[normOb(n)] {
+		onBase := baseline[n] || baselineNorm[normOb(n)]
+		if !onBase && ob.Kind == "frame" && baselineFuncs[ob.Func] {
+			// a frame obligation exists only for the components the function writes: one that
+			// appears for a function whose other obligations are on the baseline is the
+			// function's frame condition, which held (vacuously) before
+			onBase = true
+		}
+		if ob.Status == "failed-unknown" && !onBase {
 			undec = append(undec, "UNDISCHARGED "+n+" (not on the baseline list; "+ob.Status+")")
 			continue
 		}
